@@ -139,14 +139,33 @@ pub fn run_job(reg: &crate::scen::Registry, job: &Job) -> Body {
             // cache keyed on shape or address would confuse with the real input)
             let pw = P { seed: p.seed ^ 0x5A5A_5A5A, size: if p.size == crate::scen::Size::S { crate::scen::Size::M } else { crate::scen::Size::S } };
             let ps = P { seed: p.seed ^ 0x0F0F_0F0F, size: p.size };
-            let o = crate::env::run_sim_warm(
+            // ... and once more with a fault armed in the caller-supplied callbacks (scenarios that
+            // hand the library a distance function): the call is torn off half-way by a panic,
+            // which the caller catches before it goes on to the workload proper
+            // (three times, at seeded points early, further on and deep inside the run)
+            let h = crate::prng::mix3(p.seed, env.sched_seed, 0xFA17);
+            let fault_at = [h % 40, 40 + (h >> 8) % 360, 400 + (h >> 20) % 3600];
+            crate::fault::take_fired();
+            let mut o = crate::env::run_sim_warm(
                 env,
                 || {
                     let _ = (s.run)(&pw);
                     let _ = (s.run)(&ps);
+                    for at in fault_at {
+                        crate::fault::arm(at);
+                        let r = std::panic::catch_unwind(std::panic::AssertUnwindSafe(|| (s.run)(&ps)));
+                        crate::fault::disarm();
+                        drop(r);
+                        // a scenario without instrumented callbacks: nothing more to inject
+                        if crate::fault::take_ticks() == 0 {
+                            break;
+                        }
+                    }
                 },
                 || (s.run)(p),
             );
+            crate::fault::disarm();
+            o.stats.callback_faults = crate::fault::take_fired();
             Body::C20 { fps: o.results, stats: o.stats, choices: o.choices }
         }
         JobKind::C19 { entry, p, env_a, env_b, storage_seed } => {
